@@ -55,13 +55,23 @@ def get_obj_state(interp: Any, args: List[Any], kwargs: Dict[str, Any]) -> Any:
     return dict(args[0].attrs)
 
 
+def set_obj_state(interp: Any, args: List[Any], kwargs: Dict[str, Any]) -> Any:
+    """ASSUMED torch._utils._set_obj_state(obj, state): a dict state becomes instance attributes; returns obj"""
+    obj, state = args
+    if not isinstance(state, dict):
+        raise PyRaise("RuntimeError", "Invalid serialized state")
+    for k, v in state.items():
+        interp.setattr(obj, k, v)
+    return obj
+
+
 def _hook(interp: Any, name: str) -> Any:
     if name == "torch.nn":
         ents = nnmodel.nn_entries(interp)
         ents["Parameter"] = ExtClass("Parameter", (), {"__new__": lambda it, a, k: nnmodel.mk_parameter(it, a[1:], k), "__deepcopy__": param_deepcopy_base})
         return ents
     if name == "torch._utils":
-        return {"_rebuild_parameter_with_state": Builtin("torch._utils._rebuild_parameter_with_state", rebuild_with_state), "_get_obj_state": Builtin("torch._utils._get_obj_state", get_obj_state)}
+        return {"_rebuild_parameter_with_state": Builtin("torch._utils._rebuild_parameter_with_state", rebuild_with_state), "_get_obj_state": Builtin("torch._utils._get_obj_state", get_obj_state), "_set_obj_state": Builtin("torch._utils._set_obj_state", set_obj_state)}
     if name == "collections":
         return {"OrderedDict": Builtin("OrderedDict", lambda it, a, k: dict(*a, **k))}
     return None
